@@ -9,7 +9,7 @@ bech32, `E` the empty string.
 Ops (all stateless; every line carries its own grants):
   wp mt=<T> req=<parties> avail=<parties> roles=<roles> signers=<addrs> grants=<grants>
   wo mt=<T> required=<addrs> signers=… grants=…
-  wscope existing=<scope|none> proposed=<scope> roles=… [newroles=…] signers=… grants=…
+  wscope existing=<scope|none> proposed=<scope> roles=<roles|none> [newroles=…] signers=… grants=…
   dscope scope=<scope> roles=<roles|none> signers=… grants=…
   upd mt=<T> scope=<scope> roles=… signers=… grants=…
   owners mt=<T> scope=<scope> proposed=<parties> roles=… signers=… grants=…
@@ -133,8 +133,6 @@ structure Clauses where
   rolesCovered : Bool := true
   /-- smart-contract signer positions and authorizations -/
   smartContract : Bool := true
-  /-- do not judge rejections (only "accepted only when …" is checked) -/
-  rejectOk : Bool := false
 
 def Clauses.ofReq (env : Env) (mt : MsgType) (signers : List Addr) (used : List Addr) (req : Spec.Req) :
     Clauses :=
@@ -162,7 +160,7 @@ def verdict (tag : String) (c : Clauses) (impl : String) : String :=
     let all := c.optionalOk && c.partiesPresent && c.rolesPresent && c.provMay && c.requiredCovered
       && c.rolesCovered && c.smartContract
     -- a rejection is wrong only when every documented requirement is met
-    if all && !c.rejectOk then s!"fail:{tag}:rejected_valid:{if impl.startsWith "err:" then (impl.drop 4).toString else impl}" else "ok"
+    if all then s!"fail:{tag}:rejected_valid:{if impl.startsWith "err:" then (impl.drop 4).toString else impl}" else "ok"
 
 def usedOf (r : Except Err (List PartyDetails)) : List Addr :=
   match r with
@@ -198,32 +196,31 @@ def stepWords (ws : List String) : Option Parsed := do
   | some "wscope" =>
     let existing ← (kv ws "existing") >>= parseOpt? parseScope?
     let proposed ← (kv ws "proposed") >>= parseScope?
-    -- `roles`: required by the specification of the stored scope; `newroles` (optional): by
-    -- the specification the proposed scope names, when it names another one
-    let roles ← (kv ws "roles") >>= parseRoles?
+    -- `roles`: required by the specification of the stored scope (`none`: that specification
+    -- no longer exists); `newroles` (optional): by the specification the proposed scope names,
+    -- when it names another one
+    let roles ← (kv ws "roles") >>= parseOpt? parseRoles?
+    let specChange := (kv ws "newroles").isSome
     let newRoles ← match kv ws "newroles" with
       | some s => parseRoles? s
-      | none => some roles
-    let specChange := (kv ws "newroles").isSome
+      | none => roles
     -- the specification id is one of the "other" fields `Scope.Equals` compares
     let proposed := if specChange then { proposed with other := proposed.other + 1000 } else proposed
     let mt := "WriteScope"
-    -- the code reads every role requirement from the PROPOSED scope's specification
-    let r := validateWriteScope env existing proposed newRoles signers
+    let existingSpecRoles := if specChange then roles else none
+    let governing := existingSpecRoles.getD newRoles
+    let r := validateWriteScope env existing proposed newRoles existingSpecRoles signers
     let used := match existing with
       | none => []
       | some ex =>
-        if ex.rollup then usedOf (validateAllRequiredPartiesSigned env mt ex.owners ex.owners newRoles signers)
+        if ex.rollup then usedOf (validateAllRequiredPartiesSigned env mt ex.owners ex.owners governing signers)
         else if !ex.equals proposed then usedOf (validateAllRequiredSigned env mt (getPartyAddresses ex.owners) signers)
         else []
     -- the documented requirement: the roles of the stored scope's specification sign
-    let c := Clauses.ofReq env mt signers used (Spec.writeScopeReq existing proposed roles)
+    let c := Clauses.ofReq env mt signers used (Spec.writeScopeReq existing proposed governing)
     let pv := Spec.provenanceRoleOk env proposed.owners
     let c := { c with rolesPresent := Spec.rolesPresent proposed.owners newRoles, provMust := pv, provMay := pv }
-    if specChange then
-      -- only the "only when" direction is judged when the specification changes
-      some ⟨showUnit r, "wscope_spec_change", { c with rejectOk := true }⟩
-    else some ⟨showUnit r, "wscope", c⟩
+    some ⟨showUnit r, if specChange then "wscope_spec_change" else "wscope", c⟩
   | some "dscope" =>
     let scope ← (kv ws "scope") >>= parseScope?
     let roles ← (kv ws "roles") >>= parseOpt? parseRoles?
